@@ -74,6 +74,54 @@ def liveAfter (live : List Addr) : List IterInput → List Addr
   | [] => live
   | i :: is => liveAfter (liveAtFlush live i) is
 
+/-! ### Who sends
+
+"A broadcast reaches every client connected at that moment exactly once" - whoever issues it: the connect, message
+or disconnect handler through the stream object it is given, or anybody through an `AsyncSender`. What the loop
+does with a message it takes from the channel is `UnicastOk` / `BroadcastOk` below; that every message handed to
+`send` / `broadcast` IS taken is demanded here, of the real run, from what the issuers wrote down. -/
+
+/-- A server-side send as its issuer saw it. -/
+structure Issue where
+  /-- how many iterations of the loop had started when the call returned (`none`: it had not returned when the
+  run's logs were collected) -/
+  stamp : Option Nat
+  /-- what was handed over (`broadcast m []`: the visiting order is not the issuer's business) -/
+  out : Out
+  /-- a unicast through the stream of a client that has already gone (the stream a disconnect handler is given),
+  i.e. to that client: there is nobody to deliver it to -/
+  toGone : Bool := false
+  deriving DecidableEq, Repr
+
+/-- A message of the channel without the visiting order of its flush. -/
+def normOut : Out → Out
+  | .unicast a m => .unicast a m
+  | .broadcast m _ => .broadcast m []
+
+/-- The send must have been taken by a run of `n` iterations: its call returned before the last of them started
+(so that iteration's `outgoing_messages.try_iter()` found it, if no earlier one did). -/
+def Issue.due (n : Nat) (i : Issue) : Bool :=
+  !i.toGone && match i.stamp with
+    | some k => decide (k < n)
+    | none => false
+
+/-- The message `o` was taken from the channel at least as often as it was due. -/
+def issuedOutFlushed (n : Nat) (is : List Issue) (taken : List Out) (o : Out) : Bool :=
+  decide (((is.filter (·.due n)).map fun i => normOut i.out).count o ≤ (taken.map normOut).count o)
+
+/-- Every send whose call returned before an iteration of the run started was taken from the channel (and then
+flushed: `UnicastOk` / `BroadcastOk` say to whom) - whoever issued it. -/
+def issuedAreFlushed (n : Nat) (is : List Issue) (taken : List Out) : Bool :=
+  (((is.filter (·.due n)).map fun i => normOut i.out).eraseDups).all (issuedOutFlushed n is taken)
+
+/-- Nothing is taken from the channel more often than it was issued (no message out of thin air, none twice). -/
+def flushedWereIssued (is : List Issue) (taken : List Out) : Bool :=
+  ((taken.map normOut).eraseDups).all fun o =>
+    decide ((taken.map normOut).count o ≤ (is.map fun i => normOut i.out).count o)
+
+/-- Everything the executed iterations took from the channel, in order. -/
+def takenOut (is : List IterInput) : List Out := (executed is).flatMap (·.outgoing)
+
 /-! ### The heartbeat
 
 `with_heartbeat(interval, timeout)`: the app pings every connected client every `interval` and disconnects a
